@@ -1,0 +1,18 @@
+// Copyright 2026 The Mellium Contributors.
+// Use of this source code is governed by the BSD 2-clause
+// license that can be found in the LICENSE file.
+
+//go:build verif
+
+package pubsub
+
+import "encoding/xml"
+
+// VerifDecodePublishResponse decodes a publish response the way PublishIQ
+// does and returns the item ID it carries. It only exists in builds with the
+// "verif" tag.
+func VerifDecodePublishResponse(d *xml.Decoder, start xml.StartElement) (string, error) {
+	resp := publishResponse{}
+	err := d.DecodeElement(&resp, &start)
+	return resp.Publish.Item.ID, err
+}
